@@ -913,6 +913,29 @@ func (r *runner) checkTokens(doc []byte) {
 	if !ok {
 		return
 	}
+	// third voice: the token kinds the specification (TokenStream.tla, through the exported table) assigns to the text
+	if spec, acc := r.tab.TokenKinds(doc); acc {
+		var kinds []string
+		for _, t := range want {
+			switch x := t.(type) {
+			case stdjson.Delim:
+				kinds = append(kinds, x.String())
+			case string:
+				kinds = append(kinds, "str")
+			case float64, stdjson.Number:
+				kinds = append(kinds, "num")
+			case bool:
+				kinds = append(kinds, fmt.Sprint(x))
+			case nil:
+				kinds = append(kinds, "null")
+			}
+		}
+		if strings.Join(kinds, " ") != strings.Join(spec, " ") {
+			w.DivFine("ORACLE|tokenstream", "ORACLE|tokenstream", true, fmt.Sprintf("specification %v; encoding/json %v", spec, kinds), mkDesc("T", "token", doc, nil, 0, false, -1))
+			return
+		}
+		w.Count("token-sequences-agreeing-with-TokenStream", 1)
+	}
 	scheds := [][]int{nil, allCuts(len(doc))}
 	for c := 1; c < len(doc); c++ {
 		scheds = append(scheds, []int{c})
